@@ -31,6 +31,9 @@ type Machine struct {
 	UnresolvedResources        []program.Resource
 	Resources                  []machine.Value // Constants and Variables
 	UnresolvedResourceBalances map[string]int
+	// unresolvedBalanceResources lists every balance() variable (several may
+	// target the same account, which UnresolvedResourceBalances cannot hold)
+	unresolvedBalanceResources []unresolvedBalanceResource
 	resolveCalled              bool
 	Balances                   map[machine.AccountAddress]map[machine.Asset]*machine.MonetaryInt // keeps track of balances throughout execution
 	Stack                      []machine.Value
@@ -40,6 +43,11 @@ type Machine struct {
 	Printer                    func(chan machine.Value)
 	printChan                  chan machine.Value
 	Debug                      bool
+}
+
+type unresolvedBalanceResource struct {
+	address       string
+	resourceIndex int
 }
 
 type Posting struct {
@@ -493,17 +501,18 @@ func (m *Machine) Execute() error {
 func (m *Machine) ResolveBalances(ctx context.Context, store Store) error {
 
 	// map account/asset/resourceIndex
-	assignBalanceAsResource := map[string]map[string]int{}
+	assignBalanceAsResource := map[string]map[string][]int{}
 
 	balancesQuery := BalanceQuery{}
-	for address, resourceIndex := range m.UnresolvedResourceBalances {
+	for _, unresolved := range m.unresolvedBalanceResources {
+		address, resourceIndex := unresolved.address, unresolved.resourceIndex
 		monetary := m.Resources[resourceIndex].(machine.Monetary)
 		balancesQuery[address] = append(balancesQuery[address], string(monetary.Asset))
 
 		if _, ok := assignBalanceAsResource[address]; !ok {
-			assignBalanceAsResource[address] = map[string]int{}
+			assignBalanceAsResource[address] = map[string][]int{}
 		}
-		assignBalanceAsResource[address][string(monetary.Asset)] = resourceIndex
+		assignBalanceAsResource[address][string(monetary.Asset)] = append(assignBalanceAsResource[address][string(monetary.Asset)], resourceIndex)
 	}
 
 	m.Balances = make(map[machine.AccountAddress]map[machine.Asset]*machine.MonetaryInt)
@@ -541,15 +550,17 @@ func (m *Machine) ResolveBalances(ctx context.Context, store Store) error {
 		for account, forAssets := range balances {
 			for asset, balance := range forAssets {
 				if assignBalanceAsResource[account] != nil {
-					resourceIndex, ok := assignBalanceAsResource[account][asset]
+					resourceIndexes, ok := assignBalanceAsResource[account][asset]
 					if ok {
 						if balance.Cmp(ledger.Zero) < 0 {
 							return machine.NewErrNegativeAmount("tried to request the balance of account %s for asset %s: received %s: monetary amounts must be non-negative",
 								account, asset, balance)
 						}
-						monetary := m.Resources[resourceIndex].(machine.Monetary)
-						monetary.Amount = machine.NewMonetaryIntFromBigInt(balance)
-						m.Resources[resourceIndex] = monetary
+						for _, resourceIndex := range resourceIndexes {
+							monetary := m.Resources[resourceIndex].(machine.Monetary)
+							monetary.Amount = machine.NewMonetaryIntFromBigInt(balance)
+							m.Resources[resourceIndex] = monetary
+						}
 					}
 				}
 
@@ -616,6 +627,10 @@ func (m *Machine) ResolveResources(ctx context.Context, store Store) error {
 			address := string((*acc).(machine.AccountAddress))
 			involvedAccountsMap[machine.Address(idx)] = address
 			m.UnresolvedResourceBalances[address] = idx
+			m.unresolvedBalanceResources = append(m.unresolvedBalanceResources, unresolvedBalanceResource{
+				address:       address,
+				resourceIndex: idx,
+			})
 
 			ass, ok := m.getResource(res.Asset)
 			if !ok {
